@@ -3,7 +3,10 @@
 // (spawned by its constructor through the shimmed std::thread), producers, ForceFlush callers, Shutdown callers.
 // The exporter is a harness class whose Export / ForceFlush / Shutdown are scheduling points.
 //
-//   bsp|blp <maxq> <maxb> <nprod> <adds> <flushers: e.g. i2f> <nshut> <exporter script> ; <action> ; ...
+//   bsp|blp <maxq>[r|f|g|a] <maxb> <nprod> <adds> <flushers: e.g. i2f> <nshut> <exporter script> ; <action> ; ...
+//     maxq suffix = how the processor is built: none = (exporter, options) constructor, r = (exporter, options, runtime
+//       options) constructor, f / g = the factory's Create with two / three arguments, a = (logs only) the constructor
+//       taking the three numbers.  They must all configure the same processor.
 //     flushers: one char per ForceFlush caller: 'i' = indefinite timeout (max), digit k = timeout of k * schedule_delay
 //     exporter script: chars 's' (Export succeeds) / 'f' (Export reports failure), cycled; 'F' = ForceFlush fails; 'S' = Shutdown fails
 //     actions: t<i> run thread i | t<i>! run with a spurious weak-CAS failure | o<i> timer of thread i's timed wait expires
@@ -17,12 +20,16 @@
 #include "opentelemetry/sdk/common/circular_buffer.h"
 #ifdef BATCH_LOGS
 #  include "opentelemetry/sdk/logs/batch_log_record_processor.h"
+#  include "opentelemetry/sdk/logs/batch_log_record_processor_factory.h"
 #  include "opentelemetry/sdk/logs/batch_log_record_processor_options.h"
+#  include "opentelemetry/sdk/logs/batch_log_record_processor_runtime_options.h"
 #  include "opentelemetry/sdk/logs/exporter.h"
 #  include "opentelemetry/sdk/logs/recordable.h"
 #else
 #  include "opentelemetry/sdk/trace/batch_span_processor.h"
+#  include "opentelemetry/sdk/trace/batch_span_processor_factory.h"
 #  include "opentelemetry/sdk/trace/batch_span_processor_options.h"
+#  include "opentelemetry/sdk/trace/batch_span_processor_runtime_options.h"
 #  include "opentelemetry/sdk/trace/exporter.h"
 #  include "opentelemetry/sdk/trace/recordable.h"
 #endif
@@ -56,6 +63,8 @@ struct Rec final : public sdkx::Recordable
 };
 using Processor = sdkx::BatchLogRecordProcessor;
 using Options   = sdkx::BatchLogRecordProcessorOptions;
+using ROptions  = sdkx::BatchLogRecordProcessorRuntimeOptions;
+using Factory   = sdkx::BatchLogRecordProcessorFactory;
 using Exporter  = sdkx::LogRecordExporter;
 #  define ONEND OnEmit
 #else
@@ -79,6 +88,8 @@ struct Rec final : public sdkx::Recordable
 };
 using Processor = sdkx::BatchSpanProcessor;
 using Options   = sdkx::BatchSpanProcessorOptions;
+using ROptions  = sdkx::BatchSpanProcessorRuntimeOptions;
+using Factory   = sdkx::BatchSpanProcessorFactory;
 using Exporter  = sdkx::SpanExporter;
 #  define ONEND OnEnd
 #endif
@@ -147,6 +158,12 @@ static std::string handle(const std::vector<std::string> &t)
     return !s.empty() && *e == 0;
   };
   unsigned long maxq, maxb, nprod, adds, nshut;
+  char ctor = 0;
+  if (!ops[0][0].empty() && !(ops[0][0].back() >= '0' && ops[0][0].back() <= '9'))
+  {
+    ctor = ops[0][0].back();
+    ops[0][0].pop_back();
+  }
   if (!num(ops[0][0], maxq) || !num(ops[0][1], maxb) || !num(ops[0][2], nprod) || !num(ops[0][3], adds) ||
       !num(ops[0][5], nshut))
     return "bad-op";
@@ -188,7 +205,33 @@ static std::string handle(const std::vector<std::string> &t)
   opt.max_export_batch_size = maxb;
   opt.schedule_delay_millis = delay;
   // the processor is leaked on purpose if threads are left parked inside it
-  auto *proc = new Processor(std::unique_ptr<Exporter>(new HExporter(&est)), opt);
+  Processor *proc = nullptr;
+  {
+    std::unique_ptr<Exporter> ex(new HExporter(&est));
+    ROptions ropt;
+    switch (ctor)
+    {
+      case 0:
+        proc = new Processor(std::move(ex), opt);
+        break;
+      case 'r':
+        proc = new Processor(std::move(ex), opt, ropt);
+        break;
+      case 'f':
+        proc = static_cast<Processor *>(Factory::Create(std::move(ex), opt).release());
+        break;
+      case 'g':
+        proc = static_cast<Processor *>(Factory::Create(std::move(ex), opt, ropt).release());
+        break;
+#ifdef BATCH_LOGS
+      case 'a':
+        proc = new Processor(std::move(ex), maxq, delay, maxb);
+        break;
+#endif
+      default:
+        return "bad-op";
+    }
+  }
   {
     auto &sd = *proc->synchronization_data_;
     detsched::name_object(&sd.is_force_wakeup_background_worker, "wake");
